@@ -1,4 +1,5 @@
 import LeanHelix.Driver.Quorum
+import LeanHelix.Driver.Kernels
 /-!
 `lhdriver <suite>`: reads one operation per line on stdin, runs the *model*, prints one output
 line per operation.  `bin/check` diffs this stream against what the Go harness observed on the
@@ -31,4 +32,8 @@ def main (args : List String) : IO UInt32 := do
   let stdout ← IO.getStdout
   match args with
   | ["quorum"] => loopStateless stdin stdout quorumStep; return 0
+  | ["leader"] => loopStateless stdin stdout leaderStep; return 0
+  | ["timeout"] => loopStateless stdin stdout timeoutStep; return 0
+  | ["state"] => loopStateful stdin stdout State.init stateStep; return 0
+  | ["contexts"] => loopStateful stdin stdout ({} : Contexts.Reg) contextsStep; return 0
   | _ => IO.eprintln "usage: lhdriver <suite>"; return 2
